@@ -4,7 +4,7 @@
 # and stores it under /verif/seeded/<Cxx>-<mN>/
 set -u
 P=$1; M=$2
-SRC=/tmp/seed/out/$P/$M
+SRC=${SEED_SRC:-/tmp/seed/out}/$P/$M
 WT=/tmp/cs_${P}_${M}
 OUT=/verif/seeded/$P-$M
 [ -f $SRC/patch.diff ] || { echo "no patch"; exit 2; }
